@@ -1,6 +1,68 @@
-import YncaVerif.Model.Conn
-/-! # C17 — (dialogue-level statements; under construction) -/
+import YncaVerif.Props.C13
+import YncaVerif.Props.C16
+/-! # C17 — connection_check() reports model and exactly the zones present, then cleans up
+
+The full statement is NOT a theorem of the model, and is false of the code: `C17_negation_witness` below is a
+concrete execution of the L4 model (validated against the implementation by trace inclusion) in which both
+start-up probes are answered with a latency above the command spacing; the reply to the second probe then
+arrives after the first reply has cleared the keep-alive flag, is delivered to the message callbacks as a
+`SYS:MODELNAME` message, and `connection_check` — whose wait ends at the first such message — returns before
+any AVAIL reply.  The same witness is replayed on the implementation by the check (known finding
+`C17-early-probe-reply`).  What is proved is the partial statement: whenever the flag discipline withholds the
+replies to both start-up probes (`C17_partial_fast_replies` shows this for latencies below the spacing, the
+general rule is C13's), and the clean-up part, which reuses C16. -/
 namespace Ynca.C17
 open Ynca.L4
-theorem C17_model_initial_state : run ⟨100000, 30000000, 2000000, 1000000, 0⟩ {} [] = some {} := rfl
+
+def P0 : Params := ⟨100000, 30000000, 2000000, 1000000, 0⟩
+def reply : List UInt8 := "@SYS:MODELNAME=RX\r\n".toUTF8.toList
+
+/-- start-up of a connection with one message callback registered: two probes, at 0 and 100 ms -/
+def startup : List Label :=
+  [.startR, .r, .r, .r, .r, .r, .r, .publish, .reg 10 1,
+   .s, .s, .s, .s, .s, .s,
+   .tick 100000, .s, .s, .s, .s, .s, .s, .s]
+
+/-- one complete line arrives and is taken through `handle_line` up to the point of delivery -/
+def receive : List Label := [.dev reply, .rGet false, .r, .r, .rGet false, .r, .r, .r, .r]
+
+/-- replies 150 ms after each probe (as measured on a real RX-V473) -/
+def slowReplies : List Label :=
+  startup ++ [.tick 50000] ++ receive ++ [.r, .r, .tick 50000, .s, .tick 50000] ++ receive ++ [.rCb 1]
+
+/-- **negation of the full statement, by witness**: with both probes answered 150 ms late, the reply to the
+    first probe is withheld but the reply to the second one is delivered to the message callback (the reader is
+    inside callback 1 with that line) — before any reply to a later command can have arrived -/
+theorem C17_negation_witness :
+    (run P0 {} slowReplies).map (fun s => (s.decisions.map (·.2.1), s.rpc, s.wire.map (·.1))) =
+      some ([true, false], .inCb "@SYS:MODELNAME=RX" 1 [], [0, 100000]) := by
+  decide +kernel
+
+/-- replies 50 ms after each probe (below the command spacing) -/
+def fastReplies : List Label :=
+  [.startR, .r, .r, .r, .r, .r, .r, .publish, .reg 10 1,
+   .s, .s, .s, .s, .s, .s, .tick 50000] ++ receive ++
+  [.r, .r, .tick 50000, .s, .s, .s, .s, .s, .s, .s, .tick 50000] ++ receive
+
+/-- **partial**: when each probe's reply arrives before the next line is written, both replies are withheld -/
+theorem C17_partial_fast_replies :
+    (run P0 {} fastReplies).map (fun s => (s.decisions.map (·.2.1), s.wire.map (·.1))) =
+      some ([true, true], [0, 100000]) := by
+  decide +kernel
+
+/-- the general rule behind both: a MODELNAME line is withheld exactly when a probe was flagged since the flag was
+    last cleared (C13) -/
+theorem C17_withheld_rule (P : Params) (s : St) (h : Reachable P s) :
+    ∀ d ∈ s.decisions, C13.isModelname d.1 = true → (d.2.1 = true ↔ d.2.2 = true) := by
+  intro d hd hm
+  constructor
+  · intro hw; exact (C13.C13_only_if P s h d hd hw).2
+  · intro hp; exact C13.C13_converse P s h d hd hm hp
+
+/-- **clean-up in every outcome**: the `finally` block calls close(); once it has returned the transport is closed
+    and the reader told to stop (C16), and it never raises -/
+theorem C17_cleanup (P : Params) (s : St) (h : Reachable P s) (hr : s.closeReturned = true) :
+    s.portOpen = false ∧ s.alive = false :=
+  C16.C16_after_return P s h hr
+
 end Ynca.C17
